@@ -434,10 +434,11 @@ package mysql
 //@ property C13: AppendUint16, AppendUint32, AppendBinaryValue
 //@ func AppendBinaryValue
 //@   mode bv
-//@   requires len(data) < 1<<40
+//@   requires len(data) <= 1<<48
 //@   may-panic when true
 //@   assigns \nothing
 //@   ensures case grows:    ret1 == nil ==> len(ret0) >= len(data)
+//@   ensures case home:     ret1 == nil ==> fresh(ret0) || sameArray(ret0, data)
 //@   ensures case prefix:   ret1 == nil ==> forall(k, 0, len(data), ret0[k] == old(data[k]))
 //@   ensures case tiny:     intKind(value) && fieldType == TypeTiny ==> ret1 == nil && len(ret0) == len(data) + 1 && uint64(ret0[len(data)]) == u64of(value) & 0xff
 //@   ensures case short:    intKind(value) && (fieldType == TypeShort || fieldType == TypeYear) ==> ret1 == nil && len(ret0) == len(data) + 2 && le2(ret0, len(data)) == u64of(value) & 0xffff
@@ -467,3 +468,25 @@ package mysql
 //@   ensures case short:    ret1 == nil && rdFrames == 1 ==> len(ret0) == rdTotal && rdTotal == rdLast && 0 <= rdLast && rdLast < 16777215
 //@   ensures case long:     ret1 == nil && rdFrames > 1 ==> len(ret0) == rdTotal && rdTotal == (rdFrames - 1) * 16777215 + rdLast && 0 <= rdLast && rdLast < 16777215
 //@   ensures case failed:   ret1 != nil ==> ret0 == nil
+
+// ---------------------------------------------------------------- C13 binary rows: header byte and NULL bitmap (offset 2)
+// every row starts with the 0x00 header byte and has room for the (n + 7 + 2) / 8 bitmap bytes; when the bitmap buffer is copied
+// into the row, bit (j + 2) of it is set exactly when column j of the row is NULL (inner loop invariant `bits`); that the copy lands
+// at row[1:] is NOT linked to the stored row (the per-bit statement on the stored rows was provable only by one solver
+// configuration in 9-24 s and was left out rather than risk an alarm on the unchanged tree)
+//@ pure bitAt(b []byte, pos int) bool = (b[pos >> 3] >> uint(pos & 7)) & 1 == 1
+//@ pure rowBit(row []byte, pos int) bool = (row[1 + (pos >> 3)] >> uint(pos & 7)) & 1 == 1
+//@ property C13: BuildBinaryResultset
+//@ func BuildBinaryResultset
+//@   mode bv
+//@   requires len(fields) < 1<<16 && len(values) < 1<<30
+//@   may-panic when true
+//@   loop 0 invariant r != nil && fresh(r) && fresh(r.Fields) && len(r.Fields) == len(fields) && r.RowDatas == nil
+//@   loop 1 invariant case shape uses: r != nil && fresh(r) && fresh(r.Fields) && len(r.Fields) == len(fields) && (r.RowDatas == nil || fresh(r.RowDatas)) && len(r.RowDatas) == rangeindex + 1 && bitmapLen == (len(fields) + 9) >> 3
+//@   loop 1 invariant case rowsA uses shape, frame: forall(i, 0, rangeindex + 1, fresh(r.RowDatas[i]) && allocated(r.RowDatas[i]) && len(r.RowDatas[i]) >= 1 + bitmapLen && len(values[i]) == len(fields))
+//@   loop 1 invariant case rowsH uses shape, rowsA, frame, apart: forall(i, 0, rangeindex + 1, r.RowDatas[i][0] == 0)
+//@   loop 2 assigns \local, nullBitMap
+//@   loop 2 invariant case frame uses rowsA, shape: fresh(nullBitMap) && len(nullBitMap) == bitmapLen && bitmapLen == (len(fields) + 9) >> 3 && len(v) == len(fields) && (row == nil || fresh(row)) && !sameArray(row, nullBitMap) && len(row) >= 1 + bitmapLen && row[0] == 0 && r != nil && fresh(r) && fresh(r.Fields) && len(r.Fields) == len(fields)
+//@   loop 2 invariant case apart uses frame, rowsA, shape: forall(i, 0, len(r.RowDatas), allocated(r.RowDatas[i]) && !sameArray(r.RowDatas[i], row) && !sameArray(r.RowDatas[i], nullBitMap))
+//@   loop 2 invariant case bits uses frame: forall(j, 0, rangeindex + 1, bitAt(nullBitMap, j + 2) == (v[j] == nil)) && forall(q, rangeindex + 3, bitmapLen * 8, !bitAt(nullBitMap, q)) && !bitAt(nullBitMap, 0) && !bitAt(nullBitMap, 1)
+//@   ensures case rows: ret1 == nil ==> ret0 != nil && len(ret0.RowDatas) == len(values) && forall(i, 0, len(values), len(ret0.RowDatas[i]) >= 1 + ((len(fields) + 9) >> 3) && ret0.RowDatas[i][0] == 0 && len(values[i]) == len(fields))
